@@ -337,6 +337,7 @@ impl<'a> Sem<'a> {
             // a record a defm has defined under a composed name (`SLLI` of `defm SLL`): the name is a
             // value, but no identifier anywhere declares it - nothing to go to, no occurrence
             if matches!(self.p.decls[*d].kind, DeclKind::Defm | DeclKind::Def) && self.p.decls[*d].name != name {
+                self.p.spans.push((self.cur, r, "composed-record-name"));
                 return r;
             }
             if self.p.decls[*d].file != self.cur {
@@ -2611,6 +2612,11 @@ impl<'a> Sem<'a> {
             let name = if subdir { format!("sub/h{h}.td") } else { format!("h{h}.td") };
             self.p.files.push((name.clone(), String::new()));
             self.cur = 0;
+            // a variable of the root declared in front of the include: the header sees it (an include is textual)
+            if self.rng.chance(1, 4) && self.on("defvar-across-include") {
+                self.defvar_stmt();
+                self.w("\n");
+            }
             self.w(&format!("include \"{name}\"\n"));
             self.cur = h + 1;
             // include guard (so that the diamond below is valid TableGen)
@@ -2621,9 +2627,11 @@ impl<'a> Sem<'a> {
             }
             let k = 1 + self.rng.below(3);
             for _ in 0..k {
-                match self.rng.below(4) {
+                match self.rng.below(5) {
                     0 | 1 => self.class_stmt(),
                     2 => self.def_stmt("", false),
+                    // a variable of a header: global from here on, in every file
+                    3 if self.on("defvar-across-include") => self.defvar_stmt(),
                     _ => self.multiclass_stmt(),
                 }
                 self.nl();
